@@ -336,6 +336,50 @@ func TestVerifC08(t *testing.T) {
 		res.Class(fmt.Sprintf("status/%dxx", code/100))
 		u.close()
 	}
+	// Foreign files next to the reports: whatever else lies in local/, a ready report is delivered
+	// exactly once and Run returns.
+	if p.Mine(2) {
+		for _, foreign := range []string{"(1).json", "x.json", "package-lock.json", "a.json", "d.json/", "zz.json", ".json", "2024-01-07.json.bak", "local.json"} {
+			u := zzvNewU(base)
+			u.setModeRaw("on 2020-01-01")
+			body := []byte(`{"Week":"` + zzvC08Week + `","X":0.5,"Config":"v1.2.3","Programs":[]}`)
+			os.WriteFile(filepath.Join(u.td.LocalDir(), zzvC08Week+".json"), body, 0o666)
+			if strings.HasSuffix(foreign, "/") {
+				os.MkdirAll(filepath.Join(u.td.LocalDir(), foreign), 0o777)
+			} else {
+				os.WriteFile(filepath.Join(u.td.LocalDir(), foreign), []byte("{}"), 0o666)
+			}
+			zzvInstall(zzvAllApproving([]ref.LocalFile{{zzvBuildA, map[string]uint64{"c": 1}}}), "v1.2.3", 0.5)
+			vhttp.Answer = func(q *vhttp.Request) int {
+				if strings.HasSuffix(q.URL, "/"+zzvC08Week) {
+					return 200
+				}
+				return 400 // the server knows nothing about the foreign file
+			}
+			start := time.Date(2024, 1, 10, 12, 0, 0, 0, time.UTC)
+			var failed string
+			for i := 0; i < 3; i++ {
+				if err, pan := u.run(start.Add(time.Duration(i) * time.Hour)); err != nil || pan != nil {
+					failed = fmt.Sprintf("err=%v panic=%v", err, pan)
+				}
+			}
+			acks := 0
+			for _, q := range vhttp.Log {
+				if q.Status == 200 && bytes.Equal(q.Body, body) {
+					acks++
+				}
+			}
+			res.Evaluations++
+			if failed != "" {
+				res.Violate("run-failed:foreign-file", fmt.Sprintf("upload.Run fails with the foreign file %q in local/: %s", foreign, failed), map[string]any{"foreign": foreign})
+			}
+			if acks != 1 {
+				res.Violate("never-acknowledged:foreign-file", fmt.Sprintf("with the foreign file %q in local/ the ready report of week %s was acknowledged %d times in three runs (requests: %s)", foreign, zzvC08Week, acks, zzvReqSummary()), map[string]any{"foreign": foreign})
+			}
+			res.Class("foreign/" + foreign)
+			u.close()
+		}
+	}
 	bounds := []sched.Bounds{{}, {Preempt: 1}, {Fault: 1}, {Preempt: 1, Fault: 1}, {Preempt: 1, Kill: 1, Fault: 1}, {Preempt: 2, Kill: 1, Fault: 2}}
 	if p.Thorough() {
 		bounds = append(bounds, sched.Bounds{Preempt: 3, Kill: 1, Fault: 2}, sched.Bounds{Preempt: 2, Kill: 2, Fault: 3})
